@@ -7,6 +7,7 @@ package main
 
 import (
 	"bytes"
+	"context"
 	"crypto/sha256"
 	"encoding/base64"
 	"encoding/hex"
@@ -28,6 +29,7 @@ import (
 	"github.com/enfein/mieru/v3/pkg/common"
 	"google.golang.org/protobuf/encoding/protojson"
 	"google.golang.org/protobuf/proto"
+	"google.golang.org/protobuf/types/known/emptypb"
 	"verifharness/vh"
 )
 
@@ -426,6 +428,9 @@ func genPortBindings() []*pb.PortBinding {
 		case 4:
 			lo := r.Rng.Range(1, 9000)
 			b.PortRange = proto.String(fmt.Sprintf("%05d-%05d", lo, lo+r.Rng.Intn(5))) // leading zeros are accepted
+		case 5:
+			b.Port = proto.Int32(int32(r.Rng.Range(1, 65535)))
+			b.PortRange = proto.String([]string{"x", "7-9", "", "0-0", "9-7"}[r.Rng.Intn(5)]) // the port wins
 		default:
 			b.Port = proto.Int32(int32(r.Rng.Range(1, 65535)))
 		}
@@ -1225,7 +1230,7 @@ func simpleView(p *pb.ClientProfile, s *pb.ServerEndpoint) *pb.ClientProfile {
 	}
 	for _, b := range s.PortBindings {
 		nb := &pb.PortBinding{Protocol: b.GetProtocol().Enum()}
-		if b.GetPortRange() != "" {
+		if b.GetPort() == 0 { // a binding with a port is exported by its port (as FlatPortBindings reads it)
 			parts := strings.Split(b.GetPortRange(), "-")
 			lo, _ := strconv.Atoi(parts[0])
 			hi, _ := strconv.Atoi(parts[1])
@@ -1950,17 +1955,74 @@ func witnessChecks() {
 		}
 		r.Rep.Notes["client-merge-witness "+name] = fmt.Sprintf("valid patch, merged configuration invalid, Apply returned: %v; stored file unchanged", err)
 	}
-	// validated profile whose binding has both a port and a garbage range: exported by the range, import fails
-	amb := proto.Clone(old.Profiles[0]).(*pb.ClientProfile)
-	amb.Servers[0].PortBindings[0].PortRange = proto.String("x")
-	verr := appctlcommon.ValidateClientConfigSingleProfile(amb)
-	links, eerr := appctl.ClientProfileToMultiURLs(amb)
-	var ierr error
-	if len(links) > 0 {
-		guard("URLToClientProfile", links[0], func() { _, ierr = appctl.URLToClientProfile(links[0]) })
-	}
-	r.Rep.Notes["ambiguous-binding-witness"] = fmt.Sprintf("profile with binding {port:2012, portRange:\"x\"}: validate=%v export=%v links=%v import=%v", verr, eerr, links, ierr)
 	r.Count("witness-checks")
+}
+
+// setConfigRPC calls the management handlers directly (no gRPC server): SetConfig stores WITHOUT validating;
+// the question is whether what it stores can later crash Load / Reload / Start (which validate before use).
+func setConfigRPC() {
+	svc := appctl.NewServerManagementService()
+	ctx := context.Background()
+	bad := map[string]*pb.ServerConfig{
+		"empty":          {},
+		"no-ports":       {Users: []*pb.User{{Name: proto.String("a"), Password: proto.String("pwSETCFG1")}}},
+		"port-70000":     {PortBindings: []*pb.PortBinding{{Port: proto.Int32(70000), Protocol: pb.TransportProtocol_TCP.Enum()}}},
+		"range-garbage":  {PortBindings: []*pb.PortBinding{{PortRange: proto.String("9-"), Protocol: pb.TransportProtocol_UDP.Enum()}}},
+		"user-noname":    {PortBindings: []*pb.PortBinding{{Port: proto.Int32(5), Protocol: pb.TransportProtocol_TCP.Enum()}}, Users: []*pb.User{{Password: proto.String("pwSETCFG2")}}},
+		"user-nil":       {PortBindings: []*pb.PortBinding{{Port: proto.Int32(5), Protocol: pb.TransportProtocol_TCP.Enum()}}, Users: []*pb.User{nil}},
+		"binding-nil":    {PortBindings: []*pb.PortBinding{nil}},
+		"quota-days-max": {PortBindings: []*pb.PortBinding{{Port: proto.Int32(5), Protocol: pb.TransportProtocol_TCP.Enum()}}, Users: []*pb.User{{Name: proto.String("a"), Password: proto.String("pwSETCFG3"), Quotas: []*pb.Quota{{Days: proto.Int32(2147483647), Megabytes: proto.Int32(1)}}}}},
+		"mtu-5":          {PortBindings: []*pb.PortBinding{{Port: proto.Int32(5), Protocol: pb.TransportProtocol_TCP.Enum()}}, Mtu: proto.Int32(5)},
+		"bad-hash":       {PortBindings: []*pb.PortBinding{{Port: proto.Int32(5), Protocol: pb.TransportProtocol_TCP.Enum()}}, Users: []*pb.User{{Name: proto.String("a"), HashedPassword: proto.String("zz")}}},
+		"tp-invalid":     {PortBindings: []*pb.PortBinding{{Port: proto.Int32(5), Protocol: pb.TransportProtocol_TCP.Enum()}}, TrafficPattern: &pb.TrafficPattern{Nonce: &pb.NoncePattern{MinLen: proto.Int32(99)}}},
+		"invalid-utf8":   {PortBindings: []*pb.PortBinding{{Port: proto.Int32(5), Protocol: pb.TransportProtocol_TCP.Enum()}}, Users: []*pb.User{{Name: proto.String("a\xff"), Password: proto.String("pwSETCFG4")}}},
+	}
+	names := make([]string, 0, len(bad))
+	for k := range bad {
+		names = append(names, k)
+	}
+	sort.Strings(names)
+	for i, name := range names {
+		cfg := bad[name]
+		jsonFmt := i%2 == 0
+		path := setServerPath(jsonFmt)
+		verr := appctl.ValidateFullServerConfig(proto.Clone(cfg).(*pb.ServerConfig))
+		var serr, lerr, rerr, sterr error
+		res := ""
+		if guard("SetConfig", name, func() { _, serr = svc.SetConfig(ctx, cfg) }) {
+			res += " SetConfig:PANIC"
+		}
+		raw, _ := os.ReadFile(path)
+		if bytes.Contains(raw, []byte("pwSETCFG")) {
+			r.Fail("plaintext-password-stored", "SetConfig stored a plaintext password", name)
+		}
+		if guard("LoadServerConfig", name, func() { _, lerr = appctl.LoadServerConfig() }) {
+			res += " Load:PANIC"
+		}
+		if guard("Reload", name, func() { _, rerr = svc.Reload(ctx, &emptypb.Empty{}) }) {
+			res += " Reload:PANIC"
+		}
+		if verr != nil { // Start on an invalid configuration must stop at the validation, so nothing is started
+			if guard("Start", name, func() { _, sterr = svc.Start(ctx, &emptypb.Empty{}) }) {
+				res += " Start:PANIC"
+			} else if sterr == nil {
+				r.Fail("invalid-config-started", "Start accepted a configuration ValidateFullServerConfig rejects", name)
+			}
+		}
+		short := func(e error) string {
+			if e == nil {
+				return "ok"
+			}
+			m := e.Error()
+			if len(m) > 90 {
+				m = m[:90]
+			}
+			return m
+		}
+		r.Rep.Notes["SetConfig "+name] = fmt.Sprintf("valid=%s | SetConfig=%s | stored=%dB | Load=%s | Reload=%s | Start=%s |%s", short(verr), short(serr), len(raw), short(lerr), short(rerr), short(sterr), res)
+		r.Rep.Evaluations++
+	}
+	r.Count("setconfig-rpc")
 }
 
 func main() {
@@ -1971,7 +2033,13 @@ func main() {
 	os.RemoveAll(tmp)
 	os.MkdirAll(tmp, 0o755)
 
-	// ---------- corpus: the short links first
+	// ---------- corpus: {port: 2012, portRange: "x"} (fixed by 04ca7f3) and the short links first
+	linkRoundTrip(&pb.ClientConfig{ActiveProfile: proto.String("p"), Socks5Port: proto.Int32(1080),
+		Profiles: []*pb.ClientProfile{{ProfileName: proto.String("p"), User: &pb.User{Name: proto.String("u"), Password: proto.String("pwWITNESS")},
+			Servers: []*pb.ServerEndpoint{{IpAddress: proto.String("1.2.3.4"), PortBindings: []*pb.PortBinding{
+				{Port: proto.Int32(2012), Protocol: pb.TransportProtocol_TCP.Enum(), PortRange: proto.String("x")}}}}}}})
+	r.Count("corpus-ambiguous-binding")
+
 	corpus := []string{"mieru:", "mieru:/", "mieru:?", "mieru:#", "MIERU:", "mieru:x", "mieru:/x", "mieru://", "mieru:///", "MIERU://", "mieru:/a/bcdef", "mieru:?abcdefgh",
 		"mierus:", "mierus:/", "mierus://", "mierus://@", "mierus://:@h", "mierus://u@h", "mierus://u:@h", "mierus://u:p@", "mierus://u:p@h", "mierus://u:p@h?profile=x",
 		"mierus://u:p@h?profile=x&port=1", "mierus://u:p@h?profile=x&port=1&protocol=TCP", "mierus://u:p@h?profile=x&port=1&port=2&protocol=TCP",
@@ -2024,6 +2092,7 @@ func main() {
 	}
 	validatorCases(nV)
 	witnessChecks()
+	setConfigRPC()
 }
 
 func imin(a, b int) int {
